@@ -111,11 +111,7 @@ def run(prog, tier) -> Result:
         res.ob("R13.6", qn, "not memoised", not memo,
                f"decorators {decs}: a result computed under one default rounding mode would be replayed under another",
                sig="rounding path is memoised across default-mode changes", nontrivial=False)
-    gd = [n for n in ast.walk(helper.node) if isinstance(n, ast.Call) and src_of(n.func) == "get_dflt_rounding_mode"]
-    res.ob("R13.6", helper.qualname, "default mode read at call time", bool(gd) or any(
-        isinstance(n, ast.Call) and src_of(n.func) == "get_dflt_rounding_mode" for n in ast.walk(caller.node)),
-        "no call of get_dflt_rounding_mode() on the fraction path", sig="default rounding mode not consulted",
-        nontrivial=False)
+    # (that the configured default is consulted at call time is decided by the 'default' half of the decision table)
 
     # R13.3 - R13.5 Engine A
     cr = CaseRunner(prog, res, max_depth=8 if tier == "quick" else 12)
